@@ -21,6 +21,33 @@
 //!                                   permuted and extra columns, quoted fields.  From then on msel / msel2
 //!                                   / csel / cset / lsel / cload of the case work on THIS manifest
 //!                                   (collections: Collection::new(manifest, MemStorage of the signatures)).
+//!
+//! `SigStore` in every state (`Select for SigStore` works on the lazily initialised `data` cell):
+//!   st <route> <i> <prog> SEL       build a store for signature i (dataset i for the c* / lin routes), run
+//!                                   <prog> on it, then `data()`: `ok <sketches>` / `err <Variant>`
+//!   stget <route> <i> <prog> SEL    the same, but a REFUSED select is retried the way a caller has to:
+//!                                   `data()` first, then select again - what the caller ends up holding
+//!                                   after an accepted selection (this is where the property speaks)
+//!     routes  from   SigStore::from(sig)                        data filled, no storage
+//!             nws    SigStore::new_with_storage(sig, memory)    data filled, storage
+//!             lmem | lfs | lzip   InnerStorage::load_sig(path)  data filled (fs / zip: through JSON), storage
+//!             bmem | bfs | bzip   SigStore::builder().filename(path).name(..).metadata(..)
+//!                                 .storage(Some(storage)).build()        data EMPTY, read on demand
+//!             dsi    SigStore::from(DatasetInfo {..})           data empty, no storage
+//!             def    SigStore::default()                        data empty, no storage
+//!             cfd | cfr   collection.sig_for_dataset(i) / sig_from_record(&manifest[i])
+//!             lin    LinearIndex::from_collection(CollectionSet::try_from(collection)?).sig_for_dataset(i)
+//!     prog    letters run in order:  r `data()`   k continue with a clone   K `data()` on a clone (the
+//!             store itself stays as it was)   s select(SEL)   e select(&Selection::default())
+//!
+//! Histories (one collection per case, kept between lines; `none` before `hnew` / after a consumed Err):
+//!   hnew            the case's collection (`Collection::from_sigs`, or the `mcsv` manifest over memory storage)
+//!   hsel SEL        Collection::select / LinearIndex::select in place: the rows kept (positions in the
+//!                   manifest `hnew` saw)
+//!   hmsel SEL       collection.manifest().clone().select(SEL): rows (state unchanged)
+//!   hisect <rows>   collection.intersect_manifest(those rows of the hnew manifest)
+//!   hlin | hcoll    LinearIndex::from_collection(CollectionSet::try_from(..)) / back to the collection
+//!   hget j SEL      sig_for_dataset(j) on the CURRENT collection / index, then select(SEL), then data()
 use sourmash::collection::{Collection, CollectionSet};
 use sourmash::encodings::HashFunctions;
 use sourmash::index::linear::LinearIndex;
@@ -30,7 +57,7 @@ use sourmash::selection::Selection;
 use sourmash::signature::{Signature, SigsTrait};
 use sourmash::sketch::minhash::{max_hash_for_scaled, KmerMinHash, KmerMinHashBTree};
 use sourmash::sketch::Sketch;
-use sourmash::storage::{InnerStorage, MemStorage, SigStore, Storage};
+use sourmash::storage::{DatasetInfo, FSStorage, InnerStorage, MemStorage, SigStore, Storage, ZipStorage};
 use verif_harness::*;
 
 const SEED0: u64 = 1000;
@@ -523,8 +550,70 @@ fn gen(a: &Args) {
                 o.op(&format!("lsel {}", sel));
             }
         }
+        // SigStore in every state: every route, read / not read / cloned before the selection
+        let loadable = kind == "lookup" || kind == "homog";
+        for _ in 0..r.range(8, 16) {
+            let mask = if r.chance(1, 3) { 16 | r.below(16) as u32 } else { r.below(32) as u32 };
+            let (sel, home) = gen_sel(&mut r, mask, &all);
+            let mut route = *r.pick(&STORE_ROUTES);
+            if r.chance(1, 3) {
+                route = *r.pick(&["bmem", "bfs", "bzip"]);
+            }
+            let mut i = match home {
+                Some(h) if !r.chance(1, 4) => h,
+                _ => r.below(nsig),
+            };
+            if loadable && nrows > 0 && r.chance(1, 5) {
+                route = *r.pick(if kind == "homog" { &["cfd", "cfr", "lin", "lin"][..] } else { &["cfd", "cfr"][..] });
+                i = r.below(nrows as u64);
+            }
+            let prog = *r.pick(&STORE_PROGS);
+            if r.chance(1, 3) {
+                o.op(&format!("st {} {} {} {}", route, i, prog, sel));
+            }
+            o.op(&format!("stget {} {} {} {}", route, i, prog, sel));
+        }
+        // a history on one collection: selections after selections, after intersections, on the index
+        // built over it, look-ups in between
+        if !junk && r.chance(1, 2) {
+            o.op("hnew");
+            let mut lin = false;
+            let mut n = nrows as u64;
+            for _ in 0..r.range(3, 9) {
+                let mask = match r.below(4) {
+                    0 => 0,
+                    1 | 2 => 1 << r.below(5),
+                    _ => (1 << r.below(5)) | (1 << r.below(5)),
+                } as u32;
+                let (sel, _) = gen_sel(&mut r, mask, &all);
+                match r.below(10) {
+                    0..=2 => o.op(&format!("hsel {}", sel)),
+                    3 => o.op(&format!("hmsel {}", sel)),
+                    4 if !lin && nrows > 0 => {
+                        let keep: Vec<u64> = (0..nrows as u64).filter(|_| !r.chance(1, 3)).collect();
+                        o.op(&format!("hisect {}", show_nats(keep)));
+                    }
+                    5 | 6 if !lin && (kind == "homog" || r.chance(1, 6)) => {
+                        o.op("hlin");
+                        lin = true;
+                    }
+                    5 | 6 if lin && r.chance(1, 2) => {
+                        o.op("hcoll");
+                        lin = false;
+                    }
+                    _ if loadable => {
+                        n = n.max(1);
+                        o.op(&format!("hget {} {}", r.below(n), sel));
+                    }
+                    _ => o.op(&format!("hsel {}", sel)),
+                }
+            }
+        }
     }
 }
+
+const STORE_ROUTES: [&str; 10] = ["from", "nws", "lmem", "lfs", "lzip", "bmem", "bfs", "bzip", "dsi", "def"];
+const STORE_PROGS: [&str; 14] = ["s", "s", "s", "rs", "rs", "ks", "Ks", "rks", "krs", "ss", "srs", "es", "rse", "r"];
 
 // ------------------------------------------------------------------ exec
 
@@ -533,6 +622,207 @@ struct St {
     sigs: Vec<Signature>,
     /// the manifest read by `mcsv`, if the case has one
     csv: Option<Manifest>,
+    /// bumped by every `sig` / `sk` line: the storages are rebuilt when the signatures changed
+    version: u64,
+    backing: Option<Backing>,
+    /// the collection of `hnew` (its manifest as `hnew` saw it, and what became of it)
+    orig: Vec<Record>,
+    hist: Option<Hist>,
+}
+
+enum Hist {
+    Coll(Collection),
+    Lin(LinearIndex),
+}
+
+/// the case's signatures, signature i under the path `s<i>.sig`, in memory, filesystem and zip storage
+struct Backing {
+    version: u64,
+    _dir: tempfile::TempDir,
+    mem: InnerStorage,
+    fs: InnerStorage,
+    zip: InnerStorage,
+}
+
+fn crc32(data: &[u8]) -> u32 {
+    let mut c = 0xFFFF_FFFFu32;
+    for &b in data {
+        c ^= b as u32;
+        for _ in 0..8 {
+            c = if c & 1 != 0 { (c >> 1) ^ 0xEDB8_8320 } else { c >> 1 };
+        }
+    }
+    !c
+}
+
+/// a zip archive with stored (uncompressed) entries - the crate only reads zips (`piz`), it has no writer
+fn zip_bytes(entries: &[(String, Vec<u8>)]) -> Vec<u8> {
+    let mut out: Vec<u8> = vec![];
+    let mut central: Vec<u8> = vec![];
+    for (name, data) in entries {
+        let off = out.len() as u32;
+        let crc = crc32(data);
+        let mut common: Vec<u8> = vec![];
+        common.extend(20u16.to_le_bytes()); // version needed
+        common.extend(0x0800u16.to_le_bytes()); // flags: UTF-8 names
+        common.extend(0u16.to_le_bytes()); // method: stored
+        common.extend(0u16.to_le_bytes()); // time
+        common.extend(0x21u16.to_le_bytes()); // date 1980-01-01
+        common.extend(crc.to_le_bytes());
+        common.extend((data.len() as u32).to_le_bytes());
+        common.extend((data.len() as u32).to_le_bytes());
+        common.extend((name.len() as u16).to_le_bytes());
+        common.extend(0u16.to_le_bytes()); // extra length
+        out.extend(0x0403_4b50u32.to_le_bytes());
+        out.extend(&common);
+        out.extend(name.as_bytes());
+        out.extend(data);
+        central.extend(0x0201_4b50u32.to_le_bytes());
+        central.extend(20u16.to_le_bytes()); // version made by
+        central.extend(&common);
+        central.extend(0u16.to_le_bytes()); // comment length
+        central.extend(0u16.to_le_bytes()); // disk number
+        central.extend(0u16.to_le_bytes()); // internal attributes
+        central.extend(0u32.to_le_bytes()); // external attributes
+        central.extend(off.to_le_bytes());
+        central.extend(name.as_bytes());
+    }
+    let cd_off = out.len() as u32;
+    out.extend(&central);
+    out.extend(0x0605_4b50u32.to_le_bytes());
+    out.extend(0u16.to_le_bytes());
+    out.extend(0u16.to_le_bytes());
+    out.extend((entries.len() as u16).to_le_bytes());
+    out.extend((entries.len() as u16).to_le_bytes());
+    out.extend((central.len() as u32).to_le_bytes());
+    out.extend(cd_off.to_le_bytes());
+    out.extend(0u16.to_le_bytes());
+    out
+}
+
+fn backing(st: &mut St) -> &Backing {
+    if st.backing.as_ref().map(|b| b.version) != Some(st.version) {
+        let dir = verif_harness::index_util::scratch_dir();
+        let mem = MemStorage::new();
+        let fs = FSStorage::new(dir.path().join("fs").to_str().unwrap(), "");
+        let mut entries: Vec<(String, Vec<u8>)> = vec![];
+        for (i, sig) in st.sigs.iter().enumerate() {
+            let path = format!("s{}.sig", i);
+            mem.save_sig(&path, sig.clone()).unwrap();
+            fs.save_sig(&path, sig.clone()).unwrap();
+            entries.push((path, serde_json::to_vec(&vec![sig]).unwrap()));
+        }
+        let zp = dir.path().join("c.zip");
+        std::fs::write(&zp, zip_bytes(&entries)).unwrap();
+        let zip = ZipStorage::from_file(camino::Utf8PathBuf::from_path_buf(zp).unwrap()).unwrap();
+        st.backing = Some(Backing {
+            version: st.version,
+            _dir: dir,
+            mem: InnerStorage::new(mem),
+            fs: InnerStorage::new(fs),
+            zip: InnerStorage::new(zip),
+        });
+    }
+    st.backing.as_ref().unwrap()
+}
+
+fn err_name<E: std::fmt::Debug>(e: E) -> String {
+    let s = format!("{:?}", e);
+    format!("err {}", s.chars().take_while(|c| c.is_alphanumeric()).collect::<String>())
+}
+
+/// the store of a `st` / `stget` line before its program runs
+fn make_store(st: &mut St, route: &str, i: usize) -> Result<SigStore, String> {
+    let path = format!("s{}.sig", i);
+    let lazy = |storage: &InnerStorage, sig: &Signature| -> SigStore {
+        SigStore::builder()
+            .filename(path.clone())
+            .name(sig.name())
+            .metadata("")
+            .storage(Some(storage.clone()))
+            .build()
+    };
+    Ok(match route {
+        "from" => SigStore::from(st.sigs[i].clone()),
+        "nws" => {
+            let sig = st.sigs[i].clone();
+            SigStore::new_with_storage(sig, backing(st).mem.clone())
+        }
+        "lmem" | "lfs" | "lzip" | "bmem" | "bfs" | "bzip" => {
+            let sig = st.sigs[i].clone();
+            let b = backing(st);
+            let storage = match &route[1..] {
+                "mem" => &b.mem,
+                "fs" => &b.fs,
+                _ => &b.zip,
+            };
+            if route.starts_with('l') {
+                storage.load_sig(&path).map_err(err_name)?
+            } else {
+                lazy(storage, &sig)
+            }
+        }
+        "dsi" => {
+            let sig = &st.sigs[i];
+            SigStore::from(DatasetInfo { filename: path.clone(), name: sig.name(), metadata: "".into() })
+        }
+        "def" => {
+            let _ = &st.sigs[i];
+            SigStore::default()
+        }
+        "cfd" => collection(st).sig_for_dataset(i as u32).map_err(err_name)?,
+        "cfr" => {
+            let c = collection(st);
+            let rec = c.manifest()[i].clone();
+            c.sig_from_record(&rec).map_err(err_name)?
+        }
+        "lin" => {
+            let cs = CollectionSet::try_from(collection(st)).map_err(err_name)?;
+            LinearIndex::from_collection(cs).sig_for_dataset(i as u32).map_err(err_name)?
+        }
+        _ => return Err("bad-op".into()),
+    })
+}
+
+/// run the letters of `prog` on the store; `retry`: a refused select is answered by `data()` + select
+fn run_prog(mut s: SigStore, prog: &str, sel: &Selection, retry: bool) -> String {
+    for c in prog.chars() {
+        match c {
+            'r' => {
+                let _ = s.data();
+            }
+            'k' => s = s.clone(),
+            'K' => {
+                let c = s.clone();
+                let _ = c.data();
+            }
+            's' | 'e' => {
+                let empty = Selection::default();
+                let x = if c == 's' { sel } else { &empty };
+                let spare = if retry { Some(s.clone()) } else { None };
+                s = match s.select(x) {
+                    Ok(s) => s,
+                    Err(e) => match spare {
+                        None => return err_name(e),
+                        Some(spare) => {
+                            if let Err(e) = spare.data() {
+                                return err_name(e);
+                            }
+                            match spare.select(x) {
+                                Ok(s) => s,
+                                Err(e) => return err_name(e),
+                            }
+                        }
+                    },
+                };
+            }
+            _ => return "bad-op".into(),
+        }
+    }
+    match s.data() {
+        Ok(sig) => format!("ok {}", descr_sig(sig)),
+        Err(e) => err_name(e),
+    }
 }
 
 fn build_sketch(ws: &[&str], j: usize) -> Sketch {
@@ -710,6 +1000,7 @@ fn step(st: &mut St, ws: &[&str]) -> String {
                 sig.set_filename(std::str::from_utf8(&unhex(ws[2])).unwrap());
             }
             st.sigs.push(sig);
+            st.version += 1;
             "ok".into()
         }
         "sk" => {
@@ -717,6 +1008,7 @@ fn step(st: &mut St, ws: &[&str]) -> String {
             let sk = build_sketch(ws, sig.size());
             let d = descr(&sk);
             sig.push(sk);
+            st.version += 1;
             d
         }
         "mcsv" => match Manifest::from_reader(&unhex(ws[1])[..]) {
@@ -841,6 +1133,116 @@ fn step(st: &mut St, ws: &[&str]) -> String {
                 })
                 .collect();
             format!("m={} s={}", show_nats(mpos), show_nats(spos))
+        }
+        "st" | "stget" => {
+            let sel = parse_sel(&ws[4..]);
+            match make_store(st, ws[1], ws[2].parse().unwrap()) {
+                Ok(s) => run_prog(s, ws[3], &sel, ws[0] == "stget"),
+                Err(e) => e,
+            }
+        }
+        "hnew" => {
+            let c = collection(st);
+            st.orig = c.manifest().iter().cloned().collect();
+            let out = rows(&st.orig, &st.orig);
+            st.hist = Some(Hist::Coll(c));
+            out
+        }
+        "hsel" => {
+            let sel = parse_sel(&ws[1..]);
+            match st.hist.take() {
+                None => "none".into(),
+                Some(Hist::Coll(c)) => match c.select(&sel) {
+                    Ok(c) => {
+                        let kept: Vec<Record> = c.manifest().iter().cloned().collect();
+                        st.hist = Some(Hist::Coll(c));
+                        rows(&st.orig, &kept)
+                    }
+                    Err(e) => err_name(e),
+                },
+                Some(Hist::Lin(l)) => match l.select(&sel) {
+                    Ok(l) => {
+                        let kept: Vec<Record> = l.collection().manifest().iter().cloned().collect();
+                        st.hist = Some(Hist::Lin(l));
+                        rows(&st.orig, &kept)
+                    }
+                    Err(e) => err_name(e),
+                },
+            }
+        }
+        "hmsel" => {
+            let sel = parse_sel(&ws[1..]);
+            let m: Manifest = match &st.hist {
+                None => return "none".into(),
+                Some(Hist::Coll(c)) => c.manifest().clone(),
+                Some(Hist::Lin(l)) => l.collection().manifest().clone(),
+            };
+            let kept: Vec<Record> = m.select(&sel).unwrap().iter().cloned().collect();
+            rows(&st.orig, &kept)
+        }
+        "hisect" => {
+            let other: Vec<Record> = parse_nats(ws[1]).into_iter().map(|i| st.orig[i as usize].clone()).collect();
+            match &mut st.hist {
+                None => "none".into(),
+                Some(Hist::Lin(_)) => "bad-state".into(),
+                Some(Hist::Coll(c)) => {
+                    c.intersect_manifest(&Manifest::from(other));
+                    let kept: Vec<Record> = c.manifest().iter().cloned().collect();
+                    rows(&st.orig, &kept)
+                }
+            }
+        }
+        "hlin" => match st.hist.take() {
+            None => "none".into(),
+            Some(Hist::Lin(l)) => {
+                st.hist = Some(Hist::Lin(l));
+                "bad-state".into()
+            }
+            Some(Hist::Coll(c)) => match CollectionSet::try_from(c) {
+                Err(e) => err_name(e),
+                Ok(cs) if cs.is_empty() => {
+                    // (LinearIndex::from_collection takes its template from dataset 0)
+                    st.hist = Some(Hist::Coll(cs.into_inner()));
+                    "empty".into()
+                }
+                Ok(cs) => {
+                    let l = LinearIndex::from_collection(cs);
+                    let n = l.collection().len();
+                    st.hist = Some(Hist::Lin(l));
+                    format!("ok {}", n)
+                }
+            },
+        },
+        "hcoll" => match st.hist.take() {
+            None => "none".into(),
+            Some(Hist::Coll(c)) => {
+                st.hist = Some(Hist::Coll(c));
+                "bad-state".into()
+            }
+            Some(Hist::Lin(l)) => {
+                let c = l.collection().clone().into_inner();
+                let n = c.len();
+                st.hist = Some(Hist::Coll(c));
+                format!("ok {}", n)
+            }
+        },
+        "hget" => {
+            let j: u32 = ws[1].parse().unwrap();
+            let sel = parse_sel(&ws[2..]);
+            let (loaded, loc) = match &st.hist {
+                None => return "none".into(),
+                Some(Hist::Coll(c)) => (c.sig_for_dataset(j), c.manifest()[j as usize].internal_location().to_string()),
+                Some(Hist::Lin(l)) => {
+                    (l.sig_for_dataset(j), l.collection().manifest()[j as usize].internal_location().to_string())
+                }
+            };
+            match loaded.and_then(|s| s.select(&sel)) {
+                Ok(s) => match s.data() {
+                    Ok(sig) => format!("{}={}", loc, descr_sig(sig)),
+                    Err(e) => err_name(e),
+                },
+                Err(e) => err_name(e),
+            }
         }
         _ => "bad-op".into(),
     }
